@@ -182,7 +182,7 @@ def _scalar_op(op, a, b, da, db):
     else:
         r = _ARI[op](ia, ib)
     if isinstance(r, SymInt):
-        r = SymInt(r.e)
+        r = SymInt(core.wrap64(r.e))        # numpy int64 arithmetic wraps around silently
     return r, INT
 
 
@@ -1083,7 +1083,7 @@ def sum_(a, axis=None):
     t = z3.IntVal(0)
     for i, x in enumerate(es):
         t = t + (zint(x) if g is None else z3.If(g[i], zint(x), 0))
-    return SymInt(z3.simplify(t), True)
+    return SymInt(z3.simplify(core.wrap64(t)), True)
 
 
 def _extreme(a, better, name):
